@@ -198,8 +198,13 @@ def int_to_double_selftest(seed, n=2000):
     bad = [v for v in vals for sg in (1, -1) if models.round_half_even_to_double(sg * v) != int(float(sg * v))]
 
     class _NoCut(object):
+        int_bounds = {}
+
         def cut(self, *a):
             pass
+
+        def feasible(self, c):
+            return True
     t = z3.Int("t")
     expr = models.int_to_double(_NoCut(), t)
     sol = z3.Solver()
